@@ -172,3 +172,61 @@ inline Walked walk(const uint8_t* f, size_t n)
 inline Walked walk(const Bytes& f) { return walk(f.data(), f.size()); }
 
 }  // namespace ref
+
+// ---- TECMP (12 + 16 byte header) -----------------------------------------------------------------
+namespace ref {
+
+constexpr size_t TECMP_HDR = 28;
+constexpr uint8_t TM_CONTROL = 0, TM_CM_STATUS = 1, TM_BUS_STATUS = 2, TM_DATA = 3, TM_CFG_STATUS = 4, TM_REPLAY = 0x0A;
+constexpr uint16_t TD_CAN = 2, TD_CANFD = 3, TD_LIN = 4, TD_FLEXRAY = 8, TD_RS232 = 0x10, TD_ANALOG = 0x20, TD_ETH = 0x80;
+
+struct TecmpHdr
+{
+    uint16_t device = 0;      // the library's API is 8 bit, high byte must be 0 to be routed to TECMP
+    uint16_t counter = 0;
+    uint8_t version = 3;
+    uint8_t msgType = TM_DATA;
+    uint16_t dataType = TD_CAN;
+    uint16_t reserved = 0;
+    uint16_t deviceFlags = 0;
+    uint32_t ifid = 0;
+    uint64_t ts = 0;
+    uint16_t plen = 0;        // written as is (may deliberately differ from the payload size)
+    uint16_t dataFlags = 0;
+};
+
+inline void putTecmpHdr(Bytes& b, const TecmpHdr& h)
+{
+    put16(b, h.device); put16(b, h.counter); put8(b, h.version); put8(b, h.msgType); put16(b, h.dataType);
+    put16(b, h.reserved); put16(b, h.deviceFlags); put32(b, h.ifid); put64(b, h.ts); put16(b, h.plen); put16(b, h.dataFlags);
+}
+
+inline Bytes tecmpFrame(TecmpHdr h, const Bytes& payload, bool fixLen = true)
+{
+    if (fixLen)
+        h.plen = (uint16_t) payload.size();
+    Bytes b;
+    putTecmpHdr(b, h);
+    putbytes(b, payload);
+    return b;
+}
+
+inline Bytes tecmpCanPayload(uint32_t arbId, uint8_t lenByte, const Bytes& data, int crcBytes)
+{
+    Bytes p;
+    put32(p, arbId); put8(p, lenByte); putbytes(p, data);
+    for (int i = 0; i < crcBytes; ++i)
+        put8(p, 0xC0 + i);
+    return p;
+}
+
+inline Bytes tecmpLinPayload(uint8_t pid, uint8_t lenByte, const Bytes& data, bool withChecksum, uint8_t checksum)
+{
+    Bytes p;
+    put8(p, pid); put8(p, lenByte); putbytes(p, data);
+    if (withChecksum)
+        put8(p, checksum);
+    return p;
+}
+
+}  // namespace ref
